@@ -1,6 +1,7 @@
 package main
 
 import (
+	"fmt"
 	"strings"
 
 	"golang.org/x/tools/go/ssa"
@@ -74,10 +75,56 @@ func c02(c *Ctx) {
 	c.ltxHeaders(cj)
 	commit := `out:encoding/binary.Read(litefs.OS.Open(p0.os, "COMMITJOURNAL:DB", litefs.(*DB).DatabasePath(p0))#0, encoding/binary.BigEndian, &new(uint32))`
 	c.Before("header/commit-read-at-28", cj, p.PlainCalls("encoding/binary.Read"), p.CallWhere("os.(*File).Seek", `, 28, 0\)$`), 1, "the commit size is read at offset 28 (SQLITE_DATABASE_SIZE_OFFSET) of the database file", "")
+	{
+		// rollback of the first transaction: the database had no pages and its file is still empty
+		sz := "os.FileInfo.Size(os.(*File).Stat(litefs.OS.Open(p0.os, \"COMMITJOURNAL:DB\", litefs.(*DB).DatabasePath(p0))#0)#0)"
+		emptyFile := G(pat("(0 == "+sz+")")+"|"+pat("("+sz+" == 0)"), false)
+		hadPages := G(pat("(0 == litefs.(*DB).PageN(p0))")+"|"+pat("(litefs.(*DB).PageN(p0) == 0)"), false)
+		c.Guarded("rollback/empty-database-not-read", cj, p.PlainCalls("encoding/binary.Read"), gs(emptyFile, hadPages), 1, "the page count is read from the database header only when the file is not empty or the database had pages before", "a journal finalised over a still-empty database is the rollback of the first transaction: reading the header fails with EOF, SQLite sees an I/O error and the journal stays behind")
+		hv := GP("litefs.(*DB).isJournalHeaderValid(p0)#0", false)
+		nops := G(pat("(0 == p0.pageSize)")+"|"+pat("(p0.pageSize == 0)"), true)
+		// the invalidations that are not the commit step itself (i.e. not reachable after the LTX file was created)
+		afterCreate := map[ssa.Instruction]bool{}
+		if fn := c.F(cj); fn != nil {
+			for _, in := range Instrs(fn, p.PlainCalls("litefs.(*DB).invalidateJournal")) {
+				in := in
+				if f := (&Search{P: p, Fn: fn, From: Instrs(fn, p.PlainCalls("litefs.OS.Create")), Tgt: func(i ssa.Instruction) bool { return i == in }}).Run(); f != nil {
+					afterCreate[in] = true
+				}
+			}
+		}
+		early := func(in ssa.Instruction) bool {
+			return p.PlainCalls("litefs.(*DB).invalidateJournal")(in) && !afterCreate[in]
+		}
+		c.GuardedPaths("rollback/invalidate-only-when", cj, early, [][]*Guard{
+			{hv, nops, G(emptyFile.Re, true)},
+			{hv, nops, G(hadPages.Re, true)},
+		}, 3, "the journal is invalidated without capturing a transaction only when its header is invalid, or no page size is known, or the database file is empty and the database had no pages", "a first transaction that did write pages must be captured, not thrown away")
+		c.NoPathFromEdge("rollback/empty-database-captures-nothing", cj, G(pat("(0 == litefs.(*DB).PageN(p0))")+"|"+pat("(litefs.(*DB).PageN(p0) == 0)"), true), p.PlainCalls("litefs.OS.Create", "litefs.OS.Rename"), 1, "on that path no transaction file is created", "")
+	}
 	enc := p.PlainCalls("ltx.(*Encoder).EncodePage")
 	pgnos := "{builtin.append(@@rangekey(p0.dirtyPageSet)@@)|make([]uint32, 0)}"
 	c.Guarded("pages/lock-page-skipped", cj, enc, gs(GP("(ltx.LockPgno(p0.pageSize) == "+pgnos+"[@@])", false)), 1, "the lock page is never encoded", "no page on the lock page may appear in an LTX")
-	c.Guarded("pages/within-commit", cj, p.PlainCalls("builtin.append"), gs(GP("("+commit+" < rangekey(p0.dirtyPageSet))", false)), 1, "a dirty page enters the page list only if pgno <= commit", "no page beyond the new size")
+	{
+		// two sources feed the page list: the pages SQLite wrote (dirty set) and the new pages it did not write
+		newPg := "phi((litefs.(*DB).PageN(p0) + 1)|(↺ + 1))"
+		isAppendOf := func(what string) IM {
+			base := p.PlainCalls("builtin.append")
+			return func(in ssa.Instruction) bool {
+				if !base(in) {
+					return false
+				}
+				v := callVals(in)
+				return len(v) == 2 && strings.Contains(p.Render(v[1]), what)
+			}
+		}
+		dirty, fresh := isAppendOf("rangekey(p0.dirtyPageSet)"), isAppendOf("litefs.(*DB).PageN(p0) + 1")
+		c.Guarded("pages/within-commit", cj, dirty, gs(GP("("+commit+" < rangekey(p0.dirtyPageSet))", false)), 1, "a dirty page enters the page list only if pgno <= commit", "no page beyond the new size")
+		c.Guarded("pages/unwritten/within-commit", cj, fresh, gs(GP("("+commit+" < "+newPg+")", false)), 1, "a new page SQLite did not write enters the page list only if pgno <= commit", "no page beyond the new size")
+		c.Guarded("pages/unwritten/not-dirty", cj, fresh, gs(GP("p0.dirtyPageSet["+newPg+"]#1", false)), 1, "... and only if it is not in the dirty set (no page twice)", "the LTX encoder requires strictly ascending page numbers")
+		c.Guarded("pages/unwritten/lock-page-skipped", cj, fresh, gs(GP("(ltx.LockPgno(p0.pageSize) == "+newPg+")", false)), 1, "... and is not the lock page", "")
+		c.Expect("pages/sources", fmt.Sprint(len(Instrs(c.F(cj), p.PlainCalls("builtin.append")))), "2", "the page list is fed by exactly these two sites", "")
+	}
 	c.Before("pages/sorted", cj, enc, p.PlainCalls("sort.Slice"), 1, "the page list is sorted before encoding", "the LTX encoder requires ascending page numbers")
 	c.Expect("pages/sort-less", strings.Join(c.returnsOf(c.closureArgName(cj, p.PlainCalls("sort.Slice"), 1)), ";"), pat("("+pgnos+"[p0] < "+pgnos+"[p1])"), "the sort order is ascending page number", "")
 	c.ExpectAll("pages/bytes-from-db", c.CallArgs(cj, p.PlainCalls("internal.ReadFullAt"), 0), pat(`litefs.OS.Open(p0.os, "COMMITJOURNAL:DB", litefs.(*DB).DatabasePath(p0))#0`), 1, "page bytes are read from the database file", "")
@@ -89,9 +136,21 @@ func c02(c *Ctx) {
 	}
 	c.Before("pages/read-before-encode", cj, enc, p.PlainCalls("internal.ReadFullAt"), 1, "each page is read before it is encoded", "")
 	pcs := "litefs.(*DB).pageChecksum(p0, " + pgnos + "[@@], " + commit + ", nil)"
-	c.BeforeFrom("pages/crosscheck", cj, enc, p.PlainCalls("ltx.(*Encoder).Close"), call("pageChecksum"), 1, "after a page was encoded the in-memory checksum cross-check runs before the LTX is closed", "")
-	c.GuardedFrom("pages/crosscheck-equal", cj, enc, p.PlainCalls("ltx.(*Encoder).Close"), gs(GP("("+pcs+"#0 == ltx.ChecksumPage("+pgnos+"[@@], make([]byte, p0.pageSize)))", true)), 1,
-		"the LTX is closed only if every encoded page's bytes match the in-memory page checksum", "C04: a mismatch means the incremental checksum no longer describes the file")
+	unwr := "make(map[uint32]struct{})[" + pgnos + "[@@]]#1"
+	setNew := func(in ssa.Instruction) bool {
+		if !p.PlainCalls("litefs.(*DB).setDatabasePageChecksum")(in) {
+			return false
+		}
+		v := callVals(in)
+		return len(v) == 3 && strings.HasPrefix(p.Render(v[2]), "ltx.ChecksumPage(")
+	}
+	c.BeforeFrom("pages/crosscheck", cj, enc, p.PlainCalls("ltx.(*Encoder).Close"), Any(call("pageChecksum"), setNew), 1, "after a page was encoded either the in-memory checksum cross-check runs or (for a new page SQLite did not write) its checksum is entered into the cache, before the LTX is closed", "")
+	c.GuardedFrom("pages/crosscheck-equal", cj, enc, p.PlainCalls("ltx.(*Encoder).Close"), gs(GP("("+pcs+"#0 == ltx.ChecksumPage("+pgnos+"[@@], make([]byte, p0.pageSize)))", true), GP(unwr, true)), 1,
+		"the LTX is closed only if every encoded page's bytes match the in-memory page checksum, or the page is one SQLite did not write", "C04: a mismatch means the incremental checksum no longer describes the file")
+	c.Guarded("pages/unwritten/cache-only-for-unwritten", cj, setNew, gs(GP(unwr, true)), 1, "a page checksum is entered without cross-check only for a page recorded as unwritten", "entering the checksum of the bytes found for a page SQLite did write would hide a divergence between cache and file")
+	for _, in := range Instrs(c.F(cj), setNew) {
+		c.Expect("pages/unwritten/cache-value", c.argR(in, 1)+" | "+c.argR(in, 2), pat(pgnos+"[@@] | ltx.ChecksumPage("+pgnos+"[@@], make([]byte, p0.pageSize))"), "the checksum entered is that of the bytes just read and encoded, under the same page number", "")
+	}
 
 	// ---- truncated-page checksums ----
 	ck := c.ArgSource(cj, p.PlainCalls("ltx.(*Encoder).SetPostApplyChecksum"), 1) // the checksum call whose result is written into the LTX
